@@ -187,6 +187,14 @@ def main(argv):
                 ck.violation("post-failed:" + kind, "femmcli post-processing failed (rc=%s): %s" % (rc, raw[-400:]), dict(files=run.files()))
                 continue
             per = {name: [out.get("L%d_%s" % (l, name), [None])[0] for l in range(nl)] for name in types}
+            # every integral that was asked for must have come back as a number (a silent nil would skip the comparisons below)
+            asked_keys = ["L%d_%s" % (l, name) for l in range(nl) for name in types] + \
+                         ["S%d_%s" % (q, name) for q in range(len(seqs)) for name in list(types) + list(AVERAGES.get(kind, {}))] + \
+                         ["C%d" % i for i in range(len(sides))]
+            missing = [k_ for k_ in asked_keys if out.get(k_, [None])[0] is None or (isinstance(out[k_][0], float) and out[k_][0] != out[k_][0])]
+            if missing:
+                ck.violation("integral-missing:%s" % kind, "%s post-processor returned no number for %d of %d requested integrals (first: %s = %r)"
+                             % (kind, len(missing), len(asked_keys), missing[0], out.get(missing[0])), dict(files=run.files()))
             # ---- stage B + additivity: the model says which labels each sequence leaves selected
             lines = ["labels " + " ".join(str(l["group"]) for l in p.labels)]
             for seq in seqs:
